@@ -261,6 +261,8 @@ where
 
         let mut files = HashMap::new();
         let mut dirs = HashMap::new();
+        // The root always exists, even in an archive without any member
+        dirs.insert(SharedString::from(""), Vec::new());
 
         for file in archive.entries_with_seek()? {
             register_file(file?, &mut files, &mut dirs, &mut id_builder)
